@@ -113,7 +113,7 @@ func (fe *FnEnc) merge(edges []edge) *State {
 			cellKeys[k] = true
 		}
 	}
-	for k := range cellKeys {
+	for _, k := range sortedAllocs(cellKeys) {
 		var vals []Term
 		var conds []Term
 		for i, e := range edges {
@@ -130,7 +130,7 @@ func (fe *FnEnc) merge(edges []edge) *State {
 			ghostKeys[k] = true
 		}
 	}
-	for k := range ghostKeys {
+	for _, k := range sortedValues(ghostKeys) {
 		var vals []Term
 		var conds []Term
 		for i, e := range edges {
@@ -405,14 +405,15 @@ func (fe *FnEnc) loopHead(st *State, l *Loop) {
 	if l.spec != nil {
 		for i := range l.spec.Invs {
 			cl := &l.spec.Invs[i]
-			fe.addOblExpr(st, fmt.Sprintf("loop%d.inv", l.ord), cl.Label+".init", fe.propsFor(cl), cl.E, env, l.header.Instrs[0].Pos())
+			o := fe.addOblExpr(st, fmt.Sprintf("loop%d.inv", l.ord), cl.Label+".init", fe.propsFor(cl), cl.E, env, l.header.Instrs[0].Pos())
+			_ = o
 		}
 	}
 	// havoc what the body may write
 	if l.writes.all {
 		fe.havocAllKeepCells(st)
 	}
-	for a := range l.writes.cells {
+	for _, a := range sortedAllocs(l.writes.cells) {
 		if _, ok := st.cells[a]; ok || true {
 			srt := fe.sorts.sortOf(a.Type().Underlying().(*types.Pointer).Elem())
 			v := fe.fresh("h."+a.Comment, srt)
@@ -420,7 +421,7 @@ func (fe *FnEnc) loopHead(st *State, l *Loop) {
 			fe.assumeWF(st, a.Type().Underlying().(*types.Pointer).Elem(), v)
 		}
 	}
-	for g := range l.writes.ghost {
+	for _, g := range sortedValues(l.writes.ghost) {
 		if old, ok := st.ghost[g]; ok {
 			st.ghost[g] = fe.fresh("hg", old.Sort)
 		}
@@ -443,7 +444,7 @@ func (fe *FnEnc) loopHead(st *State, l *Loop) {
 	if l.spec != nil {
 		for i := range l.spec.Invs {
 			cl := &l.spec.Invs[i]
-			fe.assume(st, fe.trBool(cl.E, env))
+			fe.assumeFlagged(st, fmt.Sprintf("L%d.%s", l.ord, cl.Label), fe.trBool(cl.E, env))
 		}
 		if l.spec.Decr != nil {
 			v := fe.define("variant", fe.trVal(l.spec.Decr, env).T)
@@ -487,7 +488,8 @@ func (fe *FnEnc) loopLatch(st *State, from *ssa.BasicBlock, l *Loop) {
 	env := fe.loopEnv(ls, l)
 	for i := range l.spec.Invs {
 		cl := &l.spec.Invs[i]
-		fe.addOblExpr(ls, fmt.Sprintf("loop%d.inv", l.ord), cl.Label+".preserve", fe.propsFor(cl), cl.E, env, from.Instrs[len(from.Instrs)-1].Pos())
+		o := fe.addOblExpr(ls, fmt.Sprintf("loop%d.inv", l.ord), cl.Label+".preserve", fe.propsFor(cl), cl.E, env, from.Instrs[len(from.Instrs)-1].Pos())
+		o.Uses = resolveUses(cl.Uses, l.ord, fmt.Sprintf("L%d.%s", l.ord, cl.Label))
 	}
 	if l.spec.Decr != nil && l.variant != nil {
 		now := fe.trVal(l.spec.Decr, env).T
@@ -1263,7 +1265,8 @@ func (fe *FnEnc) execReturn(st *State, x *ssa.Return) {
 		env := fe.postEnv(st, rets)
 		for i := range fe.contract.Ensures {
 			cl := &fe.contract.Ensures[i]
-			fe.addOblExpr(st, "post", cl.Label, fe.propsFor(cl), cl.E, env, x.Pos())
+			o := fe.addOblExpr(st, "post", cl.Label, fe.propsFor(cl), cl.E, env, x.Pos())
+			o.Uses = resolveUses(cl.Uses, 0, "")
 		}
 	}
 	// held-lock discipline: nothing taken by this call is still held (sequential)
@@ -1302,4 +1305,37 @@ func (fe *FnEnc) runDefers(st *State, x *ssa.RunDefers) {
 
 func (fe *FnEnc) execDeferred(st *State, d *ssa.Defer, args []RV) {
 	fe.callWithArgs(st, d, &d.Call, args[0], args[1:], nil)
+}
+
+// deterministic iteration orders (the emitted script must not depend on Go's map order)
+func valueOrder(v ssa.Value) string {
+	if dk, ok := v.(deferKey); ok {
+		return fmt.Sprintf("d%09d", int(dk.d.Pos()))
+	}
+	n := v.Name()
+	if len(n) > 1 && n[0] == 't' {
+		var k int
+		if _, err := fmt.Sscanf(n[1:], "%d", &k); err == nil {
+			return fmt.Sprintf("t%09d", k)
+		}
+	}
+	return "z" + n
+}
+
+func sortedAllocs(m map[*ssa.Alloc]bool) []*ssa.Alloc {
+	out := make([]*ssa.Alloc, 0, len(m))
+	for a := range m {
+		out = append(out, a)
+	}
+	sort.Slice(out, func(i, j int) bool { return valueOrder(out[i]) < valueOrder(out[j]) })
+	return out
+}
+
+func sortedValues(m map[ssa.Value]bool) []ssa.Value {
+	out := make([]ssa.Value, 0, len(m))
+	for a := range m {
+		out = append(out, a)
+	}
+	sort.Slice(out, func(i, j int) bool { return valueOrder(out[i]) < valueOrder(out[j]) })
+	return out
 }
